@@ -41,6 +41,7 @@ type Observer interface {
 	TCPAccepted(l *TCPListener, c *TCPConn)
 	TCPClosed(c *TCPConn, how string)
 	TCPReadEnd(c *TCPConn, err error)
+	IOFaulted(role, op, addr string)
 }
 
 type SockInfo struct {
@@ -123,7 +124,7 @@ func (n *Net) register(info *SockInfo) {
 }
 
 // ioFault consults the plan for an injected socket error. Counted per (sock role, op).
-func (n *Net) ioFault(role, op string) (string, bool) {
+func (n *Net) ioFault(role, op string, addr ...string) (string, bool) {
 	if len(n.K.Plan.IOFaults) == 0 {
 		return "", false
 	}
@@ -135,7 +136,14 @@ func (n *Net) ioFault(role, op string) (string, bool) {
 	for i := range n.K.Plan.IOFaults {
 		f := &n.K.Plan.IOFaults[i]
 		if matchStr(f.M.Sock, role) && f.M.Op == op && (f.M.Nth == 0 || f.M.Nth == c) {
-			n.K.Stats.Fault("io:" + op + ":" + f.Do)
+			n.K.Stats.Fault("io:" + role + ":" + op + ":" + f.Do)
+			if n.Obs != nil {
+				a := ""
+				if len(addr) > 0 {
+					a = addr[0]
+				}
+				n.Obs.IOFaulted(role, op, a)
+			}
 			return f.Do, true
 		}
 	}
@@ -206,7 +214,7 @@ func (s *UDPSock) ReadFrom(p []byte) (int, net.Addr, error) {
 		s.N.Obs.UDPReadCall(s)
 	}
 	s.N.K.Yield("sock:"+s.Role+":ReadFrom", s.Info.Addr)
-	if do, ok := s.N.ioFault(s.Role, "ReadFrom"); ok && do == "error" {
+	if do, ok := s.N.ioFault(s.Role, "ReadFrom", s.Info.Addr); ok && do == "error" {
 		return 0, nil, errInjected
 	}
 	for {
@@ -263,7 +271,10 @@ func (s *UDPSock) WriteTo(p []byte, addr net.Addr) (int, error) {
 	if len(p) > 65507 {
 		return 0, &net.OpError{Op: "write", Net: "udp", Err: syscall.EMSGSIZE}
 	}
-	if do, ok := s.N.ioFault(s.Role, "WriteTo"); ok && do == "error" {
+	if do, ok := s.N.ioFault(s.Role, "WriteTo", s.Info.Addr+">"+akey(ua.IP, ua.Port)); ok && do == "error" {
+		if s.Role == "listener" && s.N.Obs != nil {
+			s.N.Obs.UDPWrite(s, ua, p) // the server did act; only the datagram is lost
+		}
 		return 0, errInjected
 	}
 	if s.N.Obs != nil {
@@ -447,7 +458,7 @@ func (l *TCPListener) Addr() net.Addr { return l.laddr }
 
 func (l *TCPListener) Accept() (net.Conn, error) {
 	l.N.K.Yield("sock:"+l.Role+":Accept", l.Info.Addr)
-	if do, ok := l.N.ioFault(l.Role, "Accept"); ok && do == "error" {
+	if do, ok := l.N.ioFault(l.Role, "Accept", l.Info.Addr); ok && do == "error" {
 		return nil, errInjected
 	}
 	for {
